@@ -16,6 +16,10 @@ let ints s = List.map int_of_string (String.split_on_char '.' s)
 let rest s = String.sub s 1 (String.length s - 1)
 
 let bind_serial = ref 0
+let hkind_of = function
+  | "k" -> HKey | "m" -> HMouse | "e" -> HExpose | "f" -> HFocus | "g" -> HGeom
+  | k -> failwith ("handler kind " ^ k)
+
 let rec parse_op (s : string) : op =
   if s = "" || s = "-" then ONop else
   match s.[0] with
@@ -30,6 +34,9 @@ let rec parse_op (s : string) : op =
   | 'h' -> OHide (pos_of_idx (int_of_string (rest s)))
   | 't' -> OFocus (pos_of_idx (int_of_string (rest s)))
   | 'S' -> (match ints (rest s) with [i; v] -> OSteal (pos_of_idx i, v <> 0) | _ -> failwith "steal")
+  | 'N' -> (match ints (rest s) with [i; v] -> ONotify (pos_of_idx i, v <> 0) | _ -> failwith "notify")
+  | 'p' -> OMove (pos_of_idx (int_of_string (rest s)))
+  | 'Z' -> OResize
   | 'x' -> OExpose (pos_of_idx (int_of_string (rest s)))
   | 'g' -> OGetRoot (pos_of_idx (int_of_string (rest s)))
   | 'f' -> OFlush (pos_of_idx (int_of_string (rest s)))
@@ -43,7 +50,7 @@ let rec parse_op (s : string) : op =
        let ops = List.map parse_op (List.filter (fun x -> x <> "") (String.split_on_char ',' acts)) in
        let id = !bind_serial in
        incr bind_serial;
-       OBind (pos_of_idx (int_of_string i), z_of_int id, kind = "k", z_of_int (int_of_string ("0x" ^ mask)),
+       OBind (pos_of_idx (int_of_string i), z_of_int id, hkind_of kind, z_of_int (int_of_string ("0x" ^ mask)),
               int_of_string r <> 0, ops)
      | _ -> failwith "bind")
   | 'U' -> (match ints (rest s) with [i; n] -> OUnbind (pos_of_idx i, z_of_int n) | _ -> failwith "unbind")
@@ -75,6 +82,9 @@ let string_of_op = function
   | OHide w -> Printf.sprintf "h%d" (idx_of_pos w)
   | OFocus w -> Printf.sprintf "t%d" (idx_of_pos w)
   | OSteal (w, b) -> Printf.sprintf "S%d.%d" (idx_of_pos w) (if b then 1 else 0)
+  | OMove w -> Printf.sprintf "p%d" (idx_of_pos w)
+  | OResize -> "Z"
+  | ONotify (w, b) -> Printf.sprintf "N%d.%d" (idx_of_pos w) (if b then 1 else 0)
   | OExpose w -> Printf.sprintf "x%d" (idx_of_pos w)
   | OGetRoot w -> Printf.sprintf "g%d" (idx_of_pos w)
   | OFlush w -> Printf.sprintf "f%d" (idx_of_pos w)
@@ -242,7 +252,7 @@ let oracle line =
         | None -> "BAD no-trace"
         | Some tr ->
           let ops = if tr = "-" then [] else
-              List.map (fun t -> if t.[0] = 'b' then OBind (pos_of_idx (int_of_string (rest t)), Z0, true, Z0, false, [])
+              List.map (fun t -> if t.[0] = 'b' then OBind (pos_of_idx (int_of_string (rest t)), Z0, HKey, Z0, false, [])
                          else parse_op t) (String.split_on_char ',' tr) in
           (* cross-check of the two formulations of the client's side: what the heap-independent
              discipline accepts must satisfy the hypothesis of the proved theorems *)
